@@ -290,6 +290,25 @@ class Flattener:
         if g is None or g.outer is not None or g.qual in stack:
             raise _Refuse
         name = g.name
+        f0 = call.func
+        owned = (g.cls is not None and scope.cls is not None and g.cls != scope.cls and isinstance(f0, ast.Attribute) and isinstance(f0.value, ast.Attribute)
+                 and isinstance(f0.value.value, ast.Name) and f0.value.value.id == "self" and self.tree._method_of_owned(scope, f0.value.attr, f0.attr) == g.qual)
+        if owned:
+            # H-OWNED: a method of an object the instance owns (`self.<attr>` is only ever bound to `Cls(...)` of one class of
+            # the tree, so the callee is known exactly): spliced like a private helper, with `self` of the method bound to
+            # `self.<attr>`
+            if name.startswith("__") and name.endswith("__"):
+                raise _Refuse
+            if g.module is not scope.module:
+                raise _Refuse
+            decos_ = [ast.unparse(d) for d in g.node.decorator_list]
+            a_ = g.node.args
+            params_ = [x.arg for x in [*a_.posonlyargs, *a_.args]]
+            if decos_ or a_.vararg or a_.kwarg or not params_ or params_[0] != "self":
+                raise _Refuse
+            self._receivers = getattr(self, "_receivers", {})
+            self._receivers[id(call)] = f0.value
+            return g, params_[1:]
         if not name.startswith("_") or (name.startswith("__") and name.endswith("__")):
             raise _Refuse
         if g.module is not scope.module:
@@ -322,6 +341,7 @@ class Flattener:
         if any(isinstance(x, ast.Starred) for x in call.args) or any(k.arg is None for k in call.keywords) or len(call.args) > len(params):
             raise _Refuse
         bound: dict[str, ast.AST] = dict(zip(params, call.args))
+        receiver = getattr(self, "_receivers", {}).get(id(call))
         for k in call.keywords:
             if k.arg in bound or k.arg not in [*params, *kwonly]:
                 raise _Refuse
@@ -335,7 +355,10 @@ class Flattener:
                 if not isinstance(d, ast.Constant):
                     raise _Refuse
                 bound[p] = d
-        return {p: bound[p] for p in [*params, *kwonly]}
+        out = {p: bound[p] for p in [*params, *kwonly]}
+        if receiver is not None:
+            out = {"self": receiver, **out}  # the method's `self` is the owned object
+        return out
 
     def _check_scopes(self, body: list[ast.AST], g, bound: dict[str, ast.AST], own: set[str]) -> None:
         """No capture / shadowing when ``body`` (of helper ``g``) is moved into the flattened function."""
@@ -519,7 +542,11 @@ def _alias_may_be_stale(fn, st, chain, order, loops, stmt_of) -> bool:
         if isinstance(n, ast.Attribute) and isinstance(n.ctx, (ast.Store, ast.Del)):
             c = _self_chain(n)
             if c is not None and c == chain[: len(c)]:
-                return True
+                # a re-binding of the path (or of a prefix): stale only if it can happen AFTER the alias was bound - later
+                # in statement order, or in a loop that also contains the alias binding
+                at = stmt_of.get(id(n))
+                if at is None or order[id(at)] > order[id(st)] or set(loops[id(at)]) & set(loops[id(st)]):
+                    return True
         if isinstance(n, ast.Call) and isinstance(n.func, ast.Attribute):
             c = _self_chain(n.func.value)
             if c is not None and 2 <= len(c) < len(chain) and c == chain[: len(c)]:
